@@ -308,6 +308,36 @@ func runC20(r *core.Run) {
 				r.Violate("triangle", kind+"/permuted", sp.Name+fmt.Sprintf(" with primaries in order %v: ", perm)+msg, c20Case{Kind: kind, XY: xy})
 			}
 		}
+		// whites and primaries a hair away from the published values (a generator that snaps
+		// near-standard chromaticities onto the standard ones shows only here)
+		for _, d := range []float32{1e-6, 3e-6, 1e-5, 1.4e-5, 5e-5, 2e-4} {
+			for k := 0; k < 4; k++ {
+				for _, sgn := range []float32{1, -1} {
+					xy := sp.XY
+					xy[k][0] += sgn * d
+					xy[k][1] -= sgn * d / 2
+					kind, msg, _ := c20Triangle(xy)
+					r.AddEvals(1)
+					r.NT(fmt.Sprintf("pubnear/%s/%d/%g", sp.Name, k, sgn*d))
+					if kind != "" {
+						r.Violate("triangle", kind+"/near-published", sp.Name+fmt.Sprintf(" with chromaticity %d moved by %g: ", k, sgn*d)+msg, c20Case{Kind: kind, XY: xy})
+					}
+				}
+			}
+		}
+		// the standard whites as the library itself tabulates them (ciexyy.D50 / D65), exact and moved
+		for _, w := range []ciexyy.Color{ciexyy.D50, ciexyy.D65} {
+			for _, d := range []float32{0, 1e-6, -1e-5, 1.5e-5, -1e-4} {
+				xy := sp.XY
+				xy[3] = [2]float32{w.X + d, w.Y - d}
+				kind, msg, _ := c20Triangle(xy)
+				r.AddEvals(1)
+				r.NT(fmt.Sprintf("pubwhite/%s/%v/%g", sp.Name, w, d))
+				if kind != "" {
+					r.Violate("triangle", kind+"/near-standard-white", sp.Name+fmt.Sprintf(" with white %v%+g: ", w, d)+msg, c20Case{Kind: kind, XY: xy})
+				}
+			}
+		}
 		yy := [4]float32{float32(rgp.Uniform(0.05, 1)), float32(rgp.Uniform(0.05, 1)), float32(rgp.Uniform(0.05, 1)), 1}
 		if rgp.Intn(3) == 0 {
 			yy[3] = float32(rgp.Uniform(0.5, 1.5))
